@@ -975,6 +975,10 @@ func (l *Ledger) Dump() ([][]string, error) {
 		blockid := fmt.Sprintf("{ID:%x,TxCount:%d,InTrunk:%v, Tm:%d, Miner:%s}", block.Blockid, block.TxCount, block.InTrunk, block.Timestamp/1000000000, block.Proposer)
 		blocks[height] = append(blocks[height], blockid)
 	}
+	// a scan that broke off (read error of the storage engine) is not a complete dump
+	if err := it.Error(); err != nil {
+		return nil, err
+	}
 	return blocks, nil
 }
 
